@@ -641,14 +641,18 @@ char* MemoryLeakDetector::allocMemory(TestMemoryAllocator* allocator, size_t siz
 
 char* MemoryLeakDetector::allocateMemoryWithAccountingInformation(TestMemoryAllocator* allocator, size_t size, const char* file, size_t line, bool allocatNodesSeperately)
 {
-    if (allocatNodesSeperately) return allocator->alloc_memory(sizeOfMemoryWithCorruptionInfo(size), file, line);
-    else return allocator->alloc_memory(sizeOfMemoryWithCorruptionInfo(size) + sizeof(MemoryLeakDetectorNode), file, line);
+    size_t sizeWithAccountingInformation = sizeOfMemoryWithCorruptionInfo(size);
+    if (!allocatNodesSeperately) sizeWithAccountingInformation += sizeof(MemoryLeakDetectorNode);
+    if (sizeWithAccountingInformation < size) return NULLPTR; /* size plus the accounting information doesn't fit in a size_t */
+    return allocator->alloc_memory(sizeWithAccountingInformation, file, line);
 }
 
 char* MemoryLeakDetector::reallocateMemoryWithAccountingInformation(TestMemoryAllocator* /*allocator*/, char* memory, size_t size, const char* /*file*/, size_t /*line*/, bool allocatNodesSeperately)
 {
-    if (allocatNodesSeperately) return (char*) PlatformSpecificRealloc(memory, sizeOfMemoryWithCorruptionInfo(size));
-    else return (char*) PlatformSpecificRealloc(memory, sizeOfMemoryWithCorruptionInfo(size) + sizeof(MemoryLeakDetectorNode));
+    size_t sizeWithAccountingInformation = sizeOfMemoryWithCorruptionInfo(size);
+    if (!allocatNodesSeperately) sizeWithAccountingInformation += sizeof(MemoryLeakDetectorNode);
+    if (sizeWithAccountingInformation < size) return NULLPTR; /* size plus the accounting information doesn't fit in a size_t */
+    return (char*) PlatformSpecificRealloc(memory, sizeWithAccountingInformation);
 }
 
 MemoryLeakDetectorNode* MemoryLeakDetector::createMemoryLeakAccountingInformation(TestMemoryAllocator* allocator, size_t size, char* memory, bool allocatNodesSeperately)
